@@ -60,7 +60,7 @@ for p in props:
             "replay_cmd_template": "./check replay {path}",
             "engine": "verif-sim",
             "level_claimed": {"category": "exploration", "text": text, "design_ref": "DESIGN.md section 5, " + pid},
-            "level_note": "sampling over seeded schedules and fault sequences, not proof; baseapp.runTx and CometBFT are stubbed as described in DESIGN.md 2.1; small worlds (<=8 validators, <=6 delegators, <=4 assets, <=70 blocks per run; a flood scenario takes counts above 100 in a few percent of the runs of C02, C06-C08, C18, C20); open known findings in /verif/known_findings.json are reported as KNOWN-FINDING lines",
+            "level_note": "sampling over seeded schedules and fault sequences, not proof; baseapp.runTx and CometBFT are stubbed as described in DESIGN.md 2.1; small worlds (<=8 validators, <=6 delegators, <=4 assets, <=70 blocks per run; a flood scenario takes counts above 100 in a few percent of the runs of C02, C06-C08, C18, C20; a validator-removal scenario - x/staking removes a validator that carries alliance stake - runs once in 6-12 % of the runs of C01-C03, C05-C08, C10, C11, C17-C20 and not in the others, DESIGN.md section 8); open known findings in /verif/known_findings.json are reported as KNOWN-FINDING lines",
             "technique": tech,
         })
 na = [{"property_id": p['id'], "reason": NA_REASON} for p in props if p['id'] not in CLAIMED]
